@@ -125,7 +125,7 @@ package aggsender
 //@   loop 0 invariant err == nil ==> savedCount == old(savedCount) + 1 && lastSaved == *cert.Header
 
 //@ func (a *AggSender) sendCertificate
-//@   props C02 C13
+//@   props C02 C10 C13
 //@   calledonlyby sendCertificates
 //@   requires a != nil && a.storage != nil && a.log != nil && a.flow != nil && a.aggLayerClient != nil && a.epochNotifier != nil && a.rateLimiter != nil
 //@   modifies lastParams, lastBuilt, sentCount, lastSentCert, lastSentID, savedCount, lastSaved
@@ -137,6 +137,8 @@ package aggsender
 //@   ensures[stored-range-and-retry] savedCount == old(savedCount) + 1 ==> lastSaved.FromBlock == lastParams.FromBlock && lastSaved.ToBlock == lastParams.ToBlock && lastSaved.RetryCount == lastParams.RetryCount && lastSaved.CertType == lastParams.CertificateType && lastSaved.L1InfoTreeLeafCount == lastParams.L1InfoTreeLeafCount
 //@   ensures[stored-prev-ler] savedCount == old(savedCount) + 1 ==> lastSaved.PreviousLocalExitRoot != nil && *lastSaved.PreviousLocalExitRoot == lastSentCert.PrevLocalExitRoot
 //@   ensures[built-from-params] sentCount == old(sentCount) + 1 ==> lastSentCert == lastBuilt && lastParams != nil
+// the copy kept in the store (C10) (and the record of a refused one) is the serialisation of the very certificate object that was built, signed and submitted
+//@   assert call:Marshal typeIs(arg0, *agglayertypes.Certificate) && cast(arg0, *agglayertypes.Certificate) == lastBuilt
 
 // ---- the pending gate (C02): a certificate is only ever submitted right after a status check that found no
 // certificate still undecided. pendingAtLastCheck / newInErrorAtLastCheck record the answer of the most recent check.
